@@ -85,17 +85,21 @@ theorem natDec_spec (n : Nat) (h : n < 10 ^ 20) :
     have : b ∈ (digitsRev 20 n).reverse := by rw [hr]; simp
     simpa using this
 
+theorem stripPlus_digit (b : UInt8) (rest : Bytes) (h : IsDigit b) : stripPlus (b :: rest) = b :: rest := by
+  unfold stripPlus
+  split
+  · rename_i r heq
+    simp at heq
+    obtain ⟨rfl, _⟩ := heq
+    unfold IsDigit at h; simp at h
+  · rfl
+
 theorem parseU64_natDec (u : Nat) (h : u < 18446744073709551616) : parseU64 (natDec u) = some u := by
   obtain ⟨hp, b, rest, hb, hdig⟩ := natDec_spec u (by omega)
-  unfold parseU64
+  unfold parseU64 parseBody
   rw [hb] at hp ⊢
-  have h43 : b ≠ 43 := by
-    intro he; subst he; unfold IsDigit at hdig; simp at hdig
-  have hbody : (match b :: rest with | 43 :: r => r | _ => b :: rest) = b :: rest := by
-    split
-    · rename_i r heq; simp at heq; exact absurd heq.1 h43
-    · rfl
-  simp only [hbody, hp, h, if_true]
+  rw [stripPlus_digit b rest hdig]
+  simp [hp, h]
 
 theorem parseI64_intDec (i : Int) (h1 : -9223372036854775808 ≤ i) (h2 : i < 9223372036854775808) :
     parseI64 (intDec i) = some i := by
@@ -103,30 +107,23 @@ theorem parseI64_intDec (i : Int) (h1 : -9223372036854775808 ≤ i) (h2 : i < 92
   by_cases hneg : i < 0
   · simp only [hneg, if_true]
     obtain ⟨hp, b, rest, hb, _⟩ := natDec_spec (-i).toNat (by omega)
-    unfold parseI64
+    unfold parseI64 parseBody
     simp only
     rw [hb] at hp ⊢
-    simp only [hp]
     have : (-i).toNat ≤ 9223372036854775808 := by omega
-    simp only [this, if_true]
+    simp only [List.isEmpty_cons, Bool.false_eq_true, if_false, hp, this, if_true]
     congr 1; omega
   · simp only [hneg, if_false]
     obtain ⟨hp, b, rest, hb, hdig⟩ := natDec_spec i.toNat (by omega)
-    unfold parseI64
+    unfold parseI64 parseBody
     rw [hb] at hp ⊢
     have h45 : b ≠ 45 := by
       intro he; subst he; unfold IsDigit at hdig; simp at hdig
-    have h43 : b ≠ 43 := by
-      intro he; subst he; unfold IsDigit at hdig; simp at hdig
     split
     · rename_i r heq; simp at heq; exact absurd heq.1 h45
-    · have hbody : (match b :: rest with | 43 :: r => r | _ => b :: rest) = b :: rest := by
-        split
-        · rename_i r heq; simp at heq; exact absurd heq.1 h43
-        · rfl
-      simp only [hbody, hp]
+    · rw [stripPlus_digit b rest hdig]
       have : i.toNat < 9223372036854775808 := by omega
-      simp only [this, if_true]
+      simp only [List.isEmpty_cons, Bool.false_eq_true, if_false, hp, this, if_true]
       congr 1; omega
 
 end Snel.Value
